@@ -53,6 +53,8 @@ def generic_corpus(tier):
         for k in kinds:
             body = LEAVES[k] * n
             full += [[("array", n)] + body, [("array", None)] + body + [BREAK], [("array", None)] + body + [NULL], [("array", None)] + body]
+            # a break where an element of a DEFINITE container is due (early end)
+            full += [[("array", n)] + body[:len(body) - len(LEAVES[k])] + [BREAK], [("array", n + 1)] + body + [BREAK], [("tag", 258), ("array", n)] + body[:len(body) - len(LEAVES[k])] + [BREAK]]
             if n <= 2:
                 full += [[("tag", 258), ("array", n)] + body, [("tag", 258), ("array", None)] + body + [BREAK], [("array", n + 1)] + body, [("array", n)] + body + LEAVES[k]]
     # discriminant-led groups
@@ -73,6 +75,10 @@ def generic_corpus(tier):
             full.append([("map", 2)] + LEAVES[k1] + LEAVES[k2] + LEAVES[k1] + LEAVES[k2])
             full.append([("map", None)] + LEAVES[k1] + LEAVES[k2] + [BREAK])
             full.append([("map", None)] + LEAVES[k1] + LEAVES[k2] + [NULL])
+    for k1 in "bta":
+        full.append([("map", 1), BREAK])
+        full.append([("map", 2)] + LEAVES[k1] + LEAVES["u"] + [BREAK])
+        full.append([("map", 2)] + LEAVES[k1] + LEAVES["a"] + [BREAK])
     for a, b in ((0, 1), (1, 0), (0, 0), (1, 2)):
         for k in "ua":
             full.append([("map", 2), ("uint", a)] + LEAVES[k] + [("uint", b)] + LEAVES[k])
@@ -167,6 +173,13 @@ def show(toks):
 
 
 def render(toks):
+    try:
+        return _render(toks)
+    except (TypeError, ValueError, KeyError, AttributeError):
+        return None
+
+
+def _render(toks):
     """CBOR bytes of a stream of concrete tokens (None when it contains opaque nested items)"""
     out = bytearray()
     def head(major, n):
@@ -213,6 +226,7 @@ def decoder_entries(P):
 def run_decoder(P, ty, entry, streams, max_paths=80):
     """-> (runs, problems[(what, tokens)], unsupported reason | None, truncated)"""
     probs, n, trunc, paths = [], 0, 0, 0
+    lenient = run_decoder.lenient = []
     for what, toks, pc in streams:
         D = Engine(P, max_loop=40)
         CM.install(D, target=ty, adversarial=True)
@@ -225,6 +239,26 @@ def run_decoder(P, ty, entry, streams, max_paths=80):
                     probs.append((what, toks, d.msg[:160]))
                 elif d.kind == "bound":
                     trunc += 1
+                elif d.kind == "return" and d.value is not None and d.value.variant == "Ok" and len(lenient) < 400:
+                    # lemma behind the second clause of C02 (byte-preserving types re-emit what was consumed):
+                    # an accepting decoder has consumed exactly one well-formed item
+                    de = D.read_ref(d.args[0]) if isinstance(d.args[0], VRef) else d.args[0]
+                    pos = getattr(de, "pos", None)
+                    if pos is not None and all(isinstance(t[1], (int, type(None), str)) for t in toks[:pos] if t[0] in ("array", "map")):
+                        try:
+                            wf = CM.item_end(list(toks[:pos]), 0) == pos
+                        except Exception:
+                            wf = True
+                        if not wf:
+                            cons = list(toks[:pos])
+                            try:
+                                starts_item = CM.item_end(cons, 0) is not None
+                            except Exception:
+                                starts_item = True
+                            if not starts_item:
+                                # no well-formed item starts here at all (as opposed to: consumed past the end of its own item)
+                                early = any(t[0] == "special" and t[1] == "Break" for t in cons) and not any(t[0] in ("array", "map") and t[1] is None for t in cons)
+                                lenient.append(("early-break" if early else "declared-length", cons))
         except Unsupported as e:
             if "more than" in str(e) and "paths" in str(e):
                 trunc += 1
@@ -252,7 +286,9 @@ def worker(mir, src, tier, tys):
             for what, m in mutants(toks):
                 streams.append((what + " of " + show(toks), m, pc))
         n, probs, unsup, trunc, paths = run_decoder(P, ty, "<%s as Deserialize>::deserialize" % ty if ty in ents else ty, streams)
-        res[ty] = {"runs": n, "valid_shapes": nvalid, "truncated": trunc, "paths": paths, "unsupported": unsup, "s": round(time.time() - t0, 1),
+        len_ = sorted(run_decoder.lenient, key=lambda p_: (render(p_[1]) is None, len(p_[1])))
+        res[ty] = {"runs": n, "valid_shapes": nvalid, "truncated": trunc, "paths": paths, "unsupported": unsup, "s": round(time.time() - t0, 1), "nlenient": len(len_),
+                   "lenient": [{"what": w, "tokens": show(t), "bytes": (render(t).hex() if render(t) is not None else None)} for cl in ("early-break", "declared-length") for w, t in [x for x in len_ if x[0] == cl][:6]],
                    "problems": [{"what": w, "tokens": show(t), "bytes": (render(t).hex() if render(t) is not None else None), "msg": msg} for w, t, msg in sorted(probs, key=lambda p_: len(p_[1]))[:12]], "nproblems": len(probs)}
     return res
 
